@@ -65,3 +65,23 @@ Proof.
   split; [exact E|]. split; [exact Hr|]. split; [|split; assumption].
   destruct (Z.eqb_spec ln 0) as [X|_]; [contradiction|]. cbn [negb]. apply ex_abs_put; [exact Ha|lia].
 Qed.
+
+(* composed with the loop-free reading of the numbered registers (ExRegDefs / ExRegProps.put_num_push) *)
+From NV Require ExRegDefs ExRegProps.
+Theorem tr_numbered_push m pb lb R r c bs (t : bytes) (o : nat) ln d fuel :
+  regs_at m pb lb R -> ex_abs r R -> (0 <= c < 256)%Z -> ExRegDefs.pushes (Z.to_N c) = true ->
+  str_at m bs t -> nonul t -> (o <= length t)%nat ->
+  bs <> G_reg__bufs -> bs <> G_lnmode -> (forall k o', (k < 256)%nat -> cellp pb k <> VPtr bs o') ->
+  int_ok ln -> ln <> 0%Z -> str_fits (pre_of R c ++ skipn o t) -> (9 <= fuel)%nat ->
+  exists m' pb' lb' R',
+    callf cprog fuel (S (S (S d))) F_reg_put [VInt c; VPtr bs (Z.of_nat o); VInt ln] m = Ok (VUndef, m') /\
+    regs_at m' pb' lb' R' /\
+    forall i, (1 <= i <= 9)%nat -> option_map fst (R' (ExRegDefs.numkey i)) = ExRegDefs.num_after_push (ExRegDefs.nreg r) (skipn o t) i.
+Proof.
+  intros H Ha Hc Hp Hs Hn Ho Nb1 Nb2 Hun Hln Hl0 Hfit Hfuel.
+  destruct (tr_reg_put_ex m pb lb R r c bs t o ln d fuel H Ha Hc Hs Hn Ho Nb1 Nb2 Hun Hln Hl0 Hfit Hfuel)
+    as (m' & pb' & lb' & R' & E & Hr & Ha' & _).
+  exists m', pb', lb', R'. split; [exact E|]. split; [exact Hr|].
+  intros i Hi. rewrite (Ha' (ExRegDefs.numkey i)) by (unfold ExRegDefs.numkey; lia).
+  exact (ExRegProps.put_num_push r (Z.to_N c) (skipn o t) Hp i Hi).
+Qed.
